@@ -8,7 +8,8 @@
   C15-CLAMP   update() returns the value stored by _clamp_bitrate; _clamp_bitrate and the over-use cut, evaluated
               on a grid, respect  estimate <= max(1.5*measured + 10000, previous)  and  cut <= 0.85*measured
   C15-REMB    the SSRC list reported is the key list of `ssrcs`, which is keyed only by the ssrc argument and holds
-              at most 255 entries at every return
+              at most 255 entries at every return; the bookkeeping statements, evaluated on tables around the limit, keep the
+              SSRC of the packet just received and evict the oldest
 Does not decide: the numeric behaviour of the Kalman/AIMD pipeline.
 """
 from __future__ import annotations
